@@ -189,6 +189,17 @@ CHECKS = {
         "differential execution: CLI subprocess vs API vs convert() with file-state monitor",
         "4/C18",
     ),
+    "C02": (
+        "exploration",
+        "Objects in the documented domain of each of the 13 read/write formats (size classes crossing the field-width boundaries up "
+        "to 12000 atoms, wide coordinates, optional attributes present/absent, every bond type, cube shapes with ragged lines, "
+        "user-defined XYZ columns, float-typed counts, objects without optional sections) are written with the real dump_one and "
+        "read back; every attribute the format stores (per-format table in the check, from the format specifications) is compared: "
+        "discrete data exactly, reals to half a unit of the printed last digit; an in-domain refusal or an unreadable own output "
+        "is a violation as well.",
+        "runtime oracle: real dump/load round trip vs per-format table of stored attributes and printed precision",
+        "4/C02",
+    ),
 }
 
 NOT_YET = "check not built yet (work in progress; see DESIGN.md section 5b)"
